@@ -806,9 +806,15 @@ class RecVerifier:
         self.calls = []      # (data bytes, signature bytes, accepted)
 
 
-class CursorV:
+class CursorV(Reader):
+    """io::Cursor over bytes: the reader model of intrinsics3 (Read / BufRead), `bs` = all bytes"""
+
     def __init__(self, bs):
-        self.bs = list(bs)
+        Reader.__init__(self, list(bs))
+
+    @property
+    def bs(self):
+        return self.data
 
 
 @intrinsics.intr("std::io::Cursor::new")
